@@ -289,6 +289,28 @@ def layout(ctx: Any) -> List[Ob]:
     from .c13 import write_ttl_obligations
 
     obs.extend(write_ttl_obligations(ctx, R))
+    # none lost: a record handed to the builder with a time is kept exactly when it has not expired at that time (a record with
+    # less than a second to live is written with remaining TTL 0, not dropped), and always for time 0
+    aat = out.methods['add_answer_at_time']
+    p_rec, p_now = aat.params[1], aat.params[2]
+
+    def eff_keep(node: Any, evl: Any) -> List[Any]:
+        return ['KEEP' for c in fd.node_calls(node, evl) if call_name(c) in ('append', 'add', 'insert')]
+
+    for has_rec in (True, False):
+        for now_v in (0, 5000.0):
+            for expired in (True, False):
+                oc, und = traces(ctx, aat, {p_rec: 'record' if has_rec else None, p_now: now_v, '.is_expired()': expired}, eff_keep)
+                kept = {('KEEP' in t) for t in oc}
+                want = has_rec and (now_v == 0 or not expired)
+                obs.append(ob(R, aat, f'record {"given" if has_rec else "None"}, time {now_v:g}, {"expired" if expired else "not expired"} at that time', f'the record is {"kept" if want else "not kept"} as an answer', kept == {want} and not und, f'kept on {sorted(kept)}; undecided {und} (the only lifetime test allowed here is is_expired(time))'))
+    from .c05 import lifetime as _lifetime
+
+    for o in _lifetime.fn(ctx):
+        if o.construct == 'get_remaining_ttl':
+            o.rule = R
+            o.statement += ' -- this is the value the TTL field carries for a timed answer'
+            obs.append(o)
 
     def read_frame(f: FuncInfo, nfixed: int) -> Tuple[List[Tuple[str, str, int]], Optional[int]]:
         """Tokens read per entry; each local is named by the role it plays: the parameter of the
